@@ -232,7 +232,7 @@ class AccessorTie:
         L = live(st)
         op = st.op
         rel = st.rel
-        if op in ("noop",):
+        if op in ("noop", "query"):
             return None
         if op == "setattr":
             o, attr, v = L["o"], L["attr"], L["v"]
@@ -279,7 +279,18 @@ class AccessorTie:
             ids = [id(e) for e in lst._elements]
             if id(x._element) not in ids:
                 return {"_decline": "remove-not-member"}
-            return dict(base, m="delitem", i=ids.index(id(x._element)))
+            # `remove(x)` is `del self[self.index(x)]`: the position a plain Python list of the same objects finds –
+            # the FIRST member that is x or compares equal to x (classes that override equality: not always x itself)
+            try:
+                k = list(lst).index(x)
+            except ValueError:
+                return {"_decline": "remove-not-member"}
+            return dict(base, m="delitem", i=k)
+        if op == "setslice":
+            sl = L["sl"]
+            if sl.step not in (None, 1) or sl.start is None or sl.stop is None:
+                return {"_decline": "slice-shape"}
+            return dict(base, m="setslice", lo=sl.start, hi=sl.stop, vs=[val_json(v) for v in L["xs"]])
         if op in ("assign", "assign_dup"):
             vs = L.get("keep", L.get("new"))
             base.pop("elems", None)
@@ -301,7 +312,7 @@ class AccessorTie:
         self.register_new(rec)
         if call is None or "_decline" in call:
             why = "untranslated" if call is None else call["_decline"]
-            if rec.step.op != "noop":
+            if rec.step.op not in ("noop", "query"):
                 self.decline(f"harness:{why}")
                 self.catch_up(rec, model)
             return
